@@ -239,12 +239,17 @@ class Config:
                 if actual_type != type_:
                     raise SocketTypeError(type_, actual_type)
             else:
+                # [host] is a bare (IPv6) host, none of its colons
+                # separates a port
+                bare = bind.startswith("[") and bind.endswith("]")
                 bind = bind.replace("[", "").replace("]", "")
-                try:
-                    value = bind.rsplit(":", 1)
-                    host, port = value[0], int(value[1])
-                except (ValueError, IndexError):
-                    host, port = bind, 8000
+                host, port = bind, 8000
+                if not bare:
+                    try:
+                        value = bind.rsplit(":", 1)
+                        host, port = value[0], int(value[1])
+                    except (ValueError, IndexError):
+                        pass
                 sock = socket.socket(socket.AF_INET6 if ":" in host else socket.AF_INET, type_)
 
                 if type_ == socket.SOCK_STREAM:
